@@ -40,6 +40,19 @@ FIXED = [Bit, _Boolean, Integer, BitVector, Unsigned, Signed, Array, Signal, Por
 CACHE_OWNERS = [BitVector, Unsigned, Signed, Array, Signal, Port, Variable, Temporary]
 
 
+# the wrapped types bool / int have two spellings (the Python builtins and cohdl's _Boolean / Integer) that must denote
+# the same class: items at odd positions of a sequence spell them with the builtins
+ALT = [False]
+
+
+def _inner(e):
+    if ALT[0] and e == ["leaf", "bool"]:
+        return bool
+    if ALT[0] and e == ["leaf", "int"]:
+        return int
+    return build(e)
+
+
 def build(e):
     k = e[0]
     if k == "leaf":
@@ -56,7 +69,7 @@ def build(e):
     if k == "qany":
         return QF[e[1]]
     if k == "q":
-        inner = build(e[3])
+        inner = _inner(e[3])
         if e[2] is None:
             return QF[e[1]][inner]
         return QF[e[1]][inner, DIR[e[2]]]
@@ -72,7 +85,7 @@ def build_re(base, param):
     if k == "a":
         return B[build(param[1]), param[2]]
     if k == "q":
-        inner = build(param[2])
+        inner = _inner(param[2])
         return B[inner] if param[1] is None else B[inner, DIR[param[1]]]
     raise ValueError(param)
 
@@ -238,7 +251,8 @@ def run_seq(seq):
     classes = []      # per "t" item: class object or None
     status = []       # ok | rej | err:<type>
     vres = []
-    for it in items:
+    for pos, it in enumerate(items):
+        ALT[0] = pos % 2 == 1
         if it[0] in ("t", "r"):
             try:
                 c = build(it[1]) if it[0] == "t" else build_re(it[1], it[2])
